@@ -105,8 +105,10 @@ func stopFor(o *Outcome) string {
 // ---------------------------------------------------------------- C07
 
 type vec7 struct {
-	Text  []int `json:"text"`
-	Lines []int `json:"lines"`
+	Text  []int  `json:"text"`
+	Lines []int  `json:"lines"`
+	Entry string `json:"entry"` // which way into the parser (entry.go); absent = parse.Parse
+	First []int  `json:"first"` // entry "Reparse": the text the same Tree has parsed before
 }
 
 type traceEv struct {
@@ -129,7 +131,7 @@ func handle7(id int, raw json.RawMessage) result {
 	}
 	text := FromCPs(v.Text)
 	want := os.Getenv("YP_TRACE") != ""
-	o := Guarded(text, limits, want)
+	o := GuardedWith(text, limits, want, entryOf(v.Entry, v.First).Prepare())
 	var bad []string
 	switch o.Ret {
 	case "hang":
@@ -234,10 +236,12 @@ func traceOf(id int, text string, cps []int, o *Outcome) []json.RawMessage {
 // ---------------------------------------------------------------- C08
 
 type vec8 struct {
-	Text   []int `json:"text"`
-	Path   []int `json:"path"` // child indexes (1-based) from the root statement to the statement under test
-	Expect []int `json:"expect"`
-	Before []int `json:"before"` // optional: a module parsed first, with the string and argument interners the text under test then shares
+	Text   []int  `json:"text"`
+	Path   []int  `json:"path"` // child indexes (1-based) from the root statement to the statement under test
+	Expect []int  `json:"expect"`
+	Before []int  `json:"before"` // optional: a module parsed first, with the string and argument interners the text under test then shares
+	Entry  string `json:"entry"`  // which way into the parser (entry.go); absent = parse.Parse
+	First  []int  `json:"first"`  // entry "Reparse": the text the same Tree has parsed before
 }
 
 func handle8(id int, raw json.RawMessage) result {
@@ -260,7 +264,7 @@ func handle8(id int, raw json.RawMessage) result {
 			return parse.ParseWithInterners(name, text, nil, si, ai)
 		})
 	} else {
-		o = Guarded(FromCPs(v.Text), limits, false)
+		o = GuardedWith(FromCPs(v.Text), limits, false, entryOf(v.Entry, v.First).Prepare())
 	}
 	r := map[string]interface{}{"ret": o.Ret, "err": clip(o.Err + o.PanicVal), "leak": o.Leak}
 	if o.Ret == "ok" && o.Root {
@@ -317,6 +321,8 @@ type vec10 struct {
 	Text    []int  `json:"text"`
 	Tree    *WTree `json:"tree"`
 	HasTree bool   `json:"hasTree"`
+	Entry   string `json:"entry"` // which way into the parser (entry.go); absent = parse.Parse
+	First   []int  `json:"first"` // entry "Reparse": the text the same Tree has parsed before
 }
 
 var ctxRe = regexp.MustCompile(`^` + regexp.QuoteMeta(InputName) + `:(\d+):(\d+)(?::|$)`)
@@ -342,6 +348,15 @@ func walk(n parse.Node) WTree {
 		w.Subs = append(w.Subs, cw)
 	}
 	return w
+}
+
+func walkGuarded(n parse.Node) (w WTree, pv string) {
+	defer func() {
+		if p := recover(); p != nil {
+			pv = "panic while walking the tree: " + fmt.Sprint(p)
+		}
+	}()
+	return walk(n), ""
 }
 
 // first difference between the tree the spec prescribes and the walked tree
@@ -389,10 +404,17 @@ func handle10(id int, raw json.RawMessage) result {
 	if err := json.Unmarshal(raw, &v); err != nil {
 		return result{R: json.RawMessage(`{"ret":"bad-vector"}`)}
 	}
-	o := Guarded(FromCPs(v.Text), limits, false)
+	o := GuardedWith(FromCPs(v.Text), limits, false, entryOf(v.Entry, v.First).Prepare())
 	r := map[string]interface{}{"ret": o.Ret, "err": clip(o.Err + o.PanicVal), "leak": o.Leak}
 	if o.Ret == "ok" && o.Root {
-		w := walk(o.Tree.Root)
+		w, pv := walkGuarded(o.Tree.Root)
+		if pv != "" {
+			// the walk through the public API (Children / Statement / Argument / ErrorContext) must not panic on an accepted text
+			r["ret"] = "walk-panic"
+			r["err"] = clip(pv)
+			b, _ := json.Marshal(r)
+			return result{R: b, Stop: stopFor(&o)}
+		}
 		var sb strings.Builder
 		shape(&w, &sb)
 		r["shape"] = sb.String()
